@@ -96,6 +96,15 @@ class VTime(EngineBase):
                         ops2.append({"op": "poll"})
                     ops2.append(o)
                 ops = ops2
+                if rng.random() < 0.5:
+                    # the child has ended (often with exit code 0) and the
+                    # subprocess side has already collected it when psutil
+                    # is asked
+                    plan["procs"][0]["exit"] = "before_call"
+                    plan["procs"][0]["status"] = rng.choice(
+                        [0, 0, 0, 1 << 8, 9])
+                    if ops[0]["op"] != "poll":
+                        ops.insert(0, {"op": "poll"})
             plan["ops"] = ops
             if rng.random() < 0.3:
                 plan["eintr"].append({"op_id": 0,
